@@ -65,6 +65,43 @@ Theorem failed_commit_at_tid_0_forgotten_by_old_code : forall f j pos id need la
 Proof. intros f j pos id need last H. cbn [scan_old]. rewrite H. reflexivity. Qed.
 Print Assumptions failed_commit_at_tid_0_forgotten_by_old_code.
 
+(* Once a commit block has failed its checksum the end of the log is fixed (an end can only have been recorded under
+   ASYNC_COMMIT, where the scan goes on): whatever follows - further failing commits included - the scan ends the log at that
+   transaction or fails.  "Replay stops at the first such transaction." *)
+Theorem first_failed_commit_ends_the_log : forall f j pos id need last e r,
+  j_async j = true -> scan f j pos id need last (Some e) = SEnd r -> r = e.
+Proof.
+  induction f as [|f IH]; intros j pos id need last e r Ha H; [discriminate|].
+  cbn [scan] in H. cbv zeta in H. rewrite Ha in H. cbn [negb] in H.
+  destruct (j_blk j pos) as [seq ok tags|seq ok time|seq ok blks|b|].
+  - destruct (negb (seq =? id)); [congruence|]. eapply IH; eassumption.
+  - destruct (negb (seq =? id)); [congruence|].
+    destruct need.
+    + destruct (last <=? time); congruence.
+    + destruct (negb ok).
+      * destruct (time <? last); [congruence|]. eapply IH; eassumption.
+      * eapply IH; eassumption.
+  - destruct (negb (seq =? id)); [congruence|]. eapply IH; eassumption.
+  - congruence.
+  - congruence.
+Qed.
+Print Assumptions first_failed_commit_ends_the_log.
+
+(* The code as it was let every failing commit block overwrite the end: with two failing commits in a row the first of the two
+   transactions - checksum-invalid - was replayed (pointed out by a seeding agent while the model still followed the code;
+   the property text decides; repaired in the repository) *)
+Definition async_two_bad_log : journal :=
+  mkJ 16 (fun i => match i with
+                   | 0 => JDesc 5 true [mkTag 7 false true] | 1 => JData [1] | 2 => JCommit 5 true 100
+                   | 3 => JDesc 6 true [mkTag 9 false true] | 4 => JData [2] | 5 => JCommit 6 false 101
+                   | 6 => JDesc 7 true [mkTag 9 false true] | 7 => JData [3] | 8 => JCommit 7 false 102
+                   | _ => JOther end) 0 5 true.
+Theorem later_failing_commit_moved_the_end_refuted :
+  scan 64 async_two_bad_log 0 5 false 0 None = SEnd 6 /\
+  scan_overwrite 64 async_two_bad_log 0 5 false 0 None = SEnd 7.
+Proof. vm_compute. split; reflexivity. Qed.
+Print Assumptions later_failing_commit_moved_the_end_refuted.
+
 (* ... and the code as it was, in which end_transaction = 0 meant "not determined yet", put the end one transaction too far
    when the failing transaction has id 0: that transaction was replayed (found when the generator learnt ASYNC_COMMIT;
    repaired in the repository) *)
